@@ -218,6 +218,14 @@ def main(argv):
     if run.disagreements:
         d = run.disagreements[0]
         broken.append("correspondence stream '%s' disagrees on %d case(s)" % (d["stream"], len(run.disagreements)))
+    try:
+        import dsched as _ds
+        if _ds.Sched.stuck_seen:
+            broken.append("%d scheduled run(s) ended with a thread blocked in a primitive the deterministic scheduler does not manage (a lock, queue "
+                          "or wait the code under test now creates with the real threading module): %s - the replay on the model is not possible"
+                          % (len(_ds.Sched.stuck_seen), _ds.Sched.stuck_seen[0]))
+    except ImportError:
+        pass
     rc = 0
     os.makedirs(os.path.join(VERIF, "replays"), exist_ok=True)
     if fresh:
